@@ -552,6 +552,7 @@ func runC15() int {
 	rep.Coverage["traces_validated_against_impl"] = evals
 	rep.Coverage["corpus_values"] = n
 	rep.Coverage["rule"] = "bounded-exhaustive: for all 37 payload types the product of per-field boundary domains (varints {0,1,0xfc,0xfd,0xffff,0x10000,2^32-1,2^32,2^64-1} where the Go type allows, lists of length 0/1/2/253, nil vs present hash / merkle proof, flag products, scripts empty/short/253 bytes, txs with 0-2 inputs/outputs, spent-output count = input count): encode, decode behind 3 sentinel bytes (exact consumption), re-encode to identical bytes, structural equality, type tables; every strict prefix of every encoding must fail with an error; every ordered pair (and triple) of one representative per type concatenated decodes to the same sequence. distinct = distinct encodings"
+	c15Conc(rep)
 	rep.Assumptions = []string{"fields whose type lives in a dependency (wire.MsgTx, merkle_proof.MerkleProof, expanded_tx.*, fee quotes) are compared through their own encoding"}
 	return rep.Finish()
 }
